@@ -45,26 +45,26 @@ def lean_check(pid, spec, log):
     with Lock("lake"):
         rc, out = sh(["lake", "build", spec["module"], "driver"] + spec.get("extra_modules", []), cwd=LEAN)
     log.append(out[-3000:])
+    mods = [spec["module"]] + spec.get("extra_modules", [])
     if rc != 0:
         m = re.findall(r"error: ([^\n]*\n?[^\n]*)", out)
-        failures.append("lake build %s failed: %s" % (spec["module"], (m[0] if m else out[-400:]).strip()[:500]))
-        return len(theorems), 0, failures
+        broken = re.findall(r"✖ \[\d+/\d+\] Building (\S+)", out)
+        failures.append("lake build failed (%s): %s" % (", ".join(broken) or spec["module"], (m[0] if m else out[-400:]).strip()[:500]))
+    # audit every theorem's axioms, module by module, so that one module that no longer builds does not hide the others
     os.makedirs(os.path.join(BUILD, "audit"), exist_ok=True)
-    af = os.path.join(BUILD, "audit", pid + ".lean")
-    with open(af, "w") as f:
-        f.write("import %s\n" % spec["module"])
-        for em in spec.get("extra_modules", []):
-            f.write("import %s\n" % em)
-        for t in theorems:
-            f.write("#print axioms %s\n" % t)
-    rc, out = sh(["lake", "env", "lean", af], cwd=LEAN)
-    log.append(out[-3000:])
-    discharged = 0
     seen = {}
-    for m in re.finditer(r"'([^']+)' (depends on axioms: \[([^\]]*)\]|does not depend on any axioms)", out):
-        name = m.group(1)
-        axs = [a.strip() for a in (m.group(3) or "").split(",") if a.strip()]
-        seen[name] = axs
+    for mi, mod in enumerate(mods):
+        af = os.path.join(BUILD, "audit", pid + (".lean" if mi == 0 else ".%d.lean" % mi))
+        with open(af, "w") as f:
+            f.write("import %s\n" % mod)
+            for t in theorems:
+                if t not in seen:
+                    f.write("#print axioms %s\n" % t)
+        rc2, out2 = sh(["lake", "env", "lean", af], cwd=LEAN)
+        log.append(out2[-2000:])
+        for m in re.finditer(r"'([^']+)' (depends on axioms: \[([^\]]*)\]|does not depend on any axioms)", out2):
+            seen.setdefault(m.group(1), [a.strip() for a in (m.group(3) or "").split(",") if a.strip()])
+    discharged = 0
     for t in theorems:
         if t not in seen:
             failures.append("theorem %s: not found / did not elaborate" % t)
@@ -173,25 +173,34 @@ def main():
     proof_failures += fails
     driver_ok = os.path.exists(lean_driver())
 
-    # 4. correspondence on the operations this property's theorems depend on
+    # 4 + 5. correspondence on the operations this property's theorems depend on, and the implementation-side
+    # oracle.  First at the size of the tier.  If an obligation, the translator or the correspondence broke and
+    # that pass produced no concrete failing input, a second, deeper pass searches for one (larger generators,
+    # the long soak, every sweep shard).
     stats = {"corr": {}, "oracle": {}}
     corr_diffs = []
-    intensify = bool(proof_failures)
     tables = json.load(open(os.path.join(BUILD, "tables.json")))
-    if driver_ok:
-        for fam in spec["corr"]:
-            ops = corr.family_ops(fam, tables, seed, tier, intensify)
-            g, m, diffs = corr.compare(ops)
-            n_ops = sum(len(x) for x in ops) if ops and isinstance(ops[0], list) else len(ops)
-            stats["corr"][fam] = {"ops": n_ops, "disagreements": len(diffs)}
-            for oid, f, x, y in diffs[:3]:
-                corr_diffs.append((fam, f, x, y))
-        if corr_diffs:
-            intensify = True
-
-    # 5. implementation-side oracle (always; deeper when something above broke)
     kf = [k for k in load_known() if k.get("property") == pid and not k.get("fixed")]
-    ores = oracles.run(pid, tables, seed, tier, intensify)
+
+    def one_pass(intensify):
+        diffs_all = []
+        if driver_ok:
+            for fam in spec["corr"]:
+                ops = corr.family_ops(fam, tables, seed, tier, intensify)
+                g, m, diffs = corr.compare(ops)
+                n_ops = sum(len(x) for x in ops) if ops and isinstance(ops[0], list) else len(ops)
+                stats["corr"][fam] = {"ops": n_ops, "disagreements": len(diffs)}
+                for oid, f, x, y in diffs[:3]:
+                    diffs_all.append((fam, f, x, y))
+        ores = oracles.run(pid, tables, seed, tier, intensify)
+        return diffs_all, ores
+
+    corr_diffs, ores = one_pass(False)
+    concrete = [v for v in ores["violations"] if not v.get("correspondence") and not [k for k in kf if k.get("site") == v.get("site")]]
+    if (proof_failures or corr_diffs) and not concrete and tier != "thorough":
+        log.append("deep pass: an obligation or the correspondence broke and the first pass found no failing input")
+        corr_diffs2, ores = one_pass(True)
+        corr_diffs = corr_diffs2 or corr_diffs
     stats["oracle"] = ores["stats"]
     found_input = False
     model_only = [v for v in ores["violations"] if v.get("correspondence")]
